@@ -459,6 +459,14 @@ class ApplicationIOController(IOController, Application):
             ApplicationIOController._debug("no active request for %r" % (address,))
             return
 
+        # it has to be the response to the active request, not a late one
+        # to a request that has been given up
+        active_id = queue.active_iocb.args[0].apduInvokeID
+        if (apdu is not None) and (active_id is not None) and (apdu.apduInvokeID is not None) \
+                and (apdu.apduInvokeID != active_id):
+            ApplicationIOController._debug("not for the active request for %r" % (address,))
+            return
+
         # this request is complete
         if isinstance(apdu, (None.__class__, SimpleAckPDU, ComplexAckPDU)):
             queue.complete_io(queue.active_iocb, apdu)
